@@ -304,10 +304,13 @@ func TestC11(t *testing.T) {
 		n++
 		c.Eval()
 		c.Class(k.Class)
-		_, ferr, _, _ := inproc.Format(k.Text)
-		reaches := ferr == nil && !k.OutOfProcess
-		if k.OutOfProcess {
-			reaches = true
+		// the oracle first: it bounds every call in time; the classification below calls the
+		// formatter again and would hang with it
+		vsNow := evalC11(k)
+		reaches := k.OutOfProcess
+		if !k.OutOfProcess && len(vsNow) == 0 {
+			_, ferr, _, _ := inproc.Format(k.Text)
+			reaches = ferr == nil
 		}
 		if reaches || k.Class == "mutant" || strings.HasPrefix(k.Class, "fault") {
 			c.NonTrivial(pbt.Hash(k.Text), func() any { return map[string]any{"class": k.Class, "text": clip(k.Text, 400)} })
@@ -315,7 +318,7 @@ func TestC11(t *testing.T) {
 		if reaches {
 			c.Class("reaches-visitor")
 		}
-		c.Report(rt, k, evalC11(k))
+		c.Report(rt, k, vsNow)
 		// a sample of the in-process inputs also goes through the real entry points
 		if !k.OutOfProcess && rapid.IntRange(0, 59).Draw(rt, "also_out_of_process") == 0 {
 			ko := k
